@@ -44,6 +44,8 @@ int snoopy_cli_action_disable ()
     char * newEtcLdSoPreloadContent = 0;
     size_t newEtcLdSoPreloadContentLengthMax;
     unsigned int copyLength;
+    size_t skipLength;
+    size_t restOfLineOffset;
     const char * entryPtr = NULL;
     char * entryLine = NULL;
     const char * srcPosPtr = 0;
@@ -92,11 +94,19 @@ int snoopy_cli_action_disable ()
     copyLength = (unsigned int) (entryPtr - srcPosPtr);
     strncpy(destPosPtr, srcPosPtr, copyLength);
 
-    // Skip the entry line we're removing, copy the rest
+    // Skip what we're removing, copy the rest. The whole line goes if our entry is the only one on
+    // it; if other libraries share the line, only our entry and the blanks separating it from the
+    // next one are removed.
     destPosPtr = newEtcLdSoPreloadContent + copyLength;
     entryLine  = snoopy_util_string_copyLineFromContent(entryPtr);
-    srcPosPtr  = entryPtr + strlen(entryLine);
-    copyLength = (unsigned int) (strlen(curEtcLdSoPreloadContent) - (entryPtr - curEtcLdSoPreloadContent) - strlen(entryLine));
+    skipLength = strlen(entryLine);
+    restOfLineOffset  = strcspn(entryLine, " \t#");                       // Our entry ends here
+    restOfLineOffset += strspn(entryLine + restOfLineOffset, " \t");    // Next entry, comment or end of line starts here
+    if ((entryLine[restOfLineOffset] != '\0') && (entryLine[restOfLineOffset] != '#')) {
+        skipLength = restOfLineOffset;
+    }
+    srcPosPtr  = entryPtr + skipLength;
+    copyLength = (unsigned int) (strlen(curEtcLdSoPreloadContent) - (entryPtr - curEtcLdSoPreloadContent) - skipLength);
     if (*srcPosPtr == '\n') {
         srcPosPtr++;
         copyLength--;
